@@ -57,6 +57,9 @@ def run_case(case):
     late_init = rng.random() < 0.2
     dut = WishboneSRAM(size=case["size"], data_width=dw, granularity=gran,
                        writable=case["writable"], init=() if late_init else init_arg)
+    from vmon.simkit import decoy_after
+    other = decoy_after(rng, lambda: WishboneSRAM(size=case["size"] * 2, data_width=dw, granularity=gran,
+                                                  writable=not case["writable"], init=[1, 2, 3][:depth]))
     if late_init:
         dut.init = list(case["init"])      # the image is set through the `init` property after construction
     bus = dut.wb_bus
